@@ -44,7 +44,7 @@ def angle_expr(k, m):
 
 ROT = ("rx", "ry", "rz")
 FIELDS = {"Q1": [("q", 1, True)], "Q2": [("r", 2, True)], "QU": [("q", 1, False), ("p", 1, False)],
-          "QD": [("q", 1, True), ("d", 1, False)], "QG": [("r", 2, True)], "QH": [("r", 2, True)]}
+          "QD": [("q", 1, True), ("d", 1, False)], "QM": [("q", 1, True)], "QG": [("r", 2, True)], "QH": [("r", 2, True)]}
 TYPE_TEXT = {"QG": "QG<int>"}         # how a spec class is written in source (and named in the tracked table)
 
 
@@ -92,6 +92,9 @@ class QD extends Q1 { public qubit d; public constructor() -> QD = default;
   public function ogate2(int i, int g, float a) -> void { if (i == 0) { if (g == 0) { h(q); } if (g == 1) { x(q); } if (g == 2) { y(this.q); } if (g == 3) { z(q); } if (g == 4) { rx(q, a); } if (g == 5) { ry(q, a); } if (g == 6) { rz(q, a); } } else { if (g == 0) { h(d); } if (g == 1) { x(d); } if (g == 2) { y(d); } if (g == 3) { z(this.d); } if (g == 4) { rx(d, a); } if (g == 5) { ry(d, a); } if (g == 6) { rz(d, a); } } }
   public function om2(int i) -> bit { if (i == 0) { bit r0 = measure q; return r0; } bit r1 = measure d; return r1; }
   public function oms2(int i) -> void { if (i == 0) { measure q; } else { measure this.d; } }
+}
+class QM extends Q1 { public constructor() -> QM = default;
+  public destructor() -> void { reset q; h(this.q); bit f0 = measure q; }
 }
 static class Ops {
   public static function sgate(qubit t, int g, float a) -> void { if (g == 0) { h(t); } if (g == 1) { x(t); } if (g == 2) { y(t); } if (g == 3) { z(t); } if (g == 4) { rx(t, a); } if (g == 5) { ry(t, a); } if (g == 6) { rz(t, a); } }
@@ -159,7 +162,7 @@ def render(beh):
                 others_q = [w for sc in scopes for w in sc if w[1] == "q"]
                 others_a = [w for sc in scopes for w in sc if w[1] == "a"]
                 relay = n % 2 == 0
-                if var["cls"] == "Q1":
+                if var["cls"] in ("Q1", "QM"):
                     if relay and others_q:
                         lines.append("relayQ1(v%d, %d, %s, v%d);" % (st["v"], GIDX[g], ang, others_q[-1][0]))
                     else:
@@ -206,7 +209,7 @@ def render(beh):
             path, expr = st["path"], st["expr"]
             var = vars_[st["v"] - 1]
             if path == "own" and var["k"] == "obj":
-                arg = "" if var["cls"] == "Q1" else str(st["e"] - 1)
+                arg = "" if var["cls"] in ("Q1", "QM") else str(st["e"] - 1)
                 suffix = "2" if var["cls"] == "QD" else ""
                 call = "v%d.%s%s(%s)" % (st["v"], "om" if expr else "oms", suffix, arg)
             elif path == "fn":
@@ -220,7 +223,10 @@ def render(beh):
                 ref = "v%d[c%d++]" % (st["v"], n)
             pre = "int c%d = %d; " % (n, st["e"] - 1) if cur else ""
             post = " if (c%d != %d) { echo(\"cursor\"); }" % (n, st["e"]) if cur else ""
-            if expr:
+            if expr and n % 4 == 2:
+                # the measurement is the echo argument itself: performed whether or not echo output is switched on
+                lines.append("%secho(%s);%s" % (pre, call or ("measure " + ref), post))
+            elif expr:
                 b = fresh_bit()
                 lines.append("%sbit %s = %s; echo(%s);%s" % (pre, b, call or ("measure " + ref), b, post))
             else:
@@ -287,7 +293,7 @@ def same_up_to_phase(impl, spec, tol):
     return err < tol, "max amplitude error %g" % err
 
 
-def compare(beh, info, res, tol=2e-5, log_on=True):
+def compare(beh, info, res, tol=2e-5, log_on=True, echo_on=True):
     """Returns list of (property, message) disagreements between spec behaviour and implementation."""
     out = []
     halted = beh["halted"]
@@ -321,7 +327,7 @@ def compare(beh, info, res, tol=2e-5, log_on=True):
             out.append(("C06", "spec: no operation touches a measured qubit, program must run to completion; "
                                "implementation: %s %s" % (shot["status"], shot.get("what", ""))))
             return out
-        exp_echo = [str(b) for b in beh["echo"]]
+        exp_echo = [str(b) for b in beh["echo"]] if echo_on else []
         if shot["echo"] != exp_echo:
             out.append(("C02", "echoed measurement bits %s, spec %s" % (shot["echo"], exp_echo)))
     # simulator op stream (events) = spec ops, with outcomes
@@ -330,7 +336,7 @@ def compare(beh, info, res, tol=2e-5, log_on=True):
     for i in range(max(len(evops), len(specops))):
         if i >= len(evops) or i >= len(specops):
             extra = evops[i] if i < len(evops) else specops[i]
-            out.append(("C03,C04" if extra.get("g") == "reset" else "C03", "simulator performed %d operations, spec %d (first extra/missing at #%d: %s)"
+            out.append(("C03,C04" if extra.get("g") == "reset" else "C03,C02" if extra.get("g") == "measure" else "C03", "simulator performed %d operations, spec %d (first extra/missing at #%d: %s)"
                         % (len(evops), len(specops), i + 1, (evops[i] if i < len(evops) else specops[i]))))
             break
         e, s = evops[i], specops[i]
